@@ -139,7 +139,11 @@ def gen_run(rng, stop=None, **over):
                                                        'bilinear')}
     p = gen_problem(rng, **pk)
     st = gen_start(rng, p)
-    crit = rng.choice([2, 3, 4, 5, 6, 7] * 3 + [0, 1, 8, 9])
+    scen = over.pop('scenario', None)
+    if scen is None:
+        r0 = rng.random()
+        scen = 'noprogress' if r0 < 0.03 else 'huge' if r0 < 0.06 else 'plain'
+    crit = rng.choice([2, 3, 4, 5, 6, 7] * 5 + [0, 1, 8, 9])
     op = Op({'_op': 'run', 'solver': 'ocp', **problem_kv(p), **{k: kvvec(v) for k, v in st.items()},
              'maxiter': str(rng.choice([0, 1, 2, 3, 5, 20, 60])),
              'tol': f2h(rng.choice([1e-8, 1e-8, 1e-3, 1e-1, 10.0, 0.0])),
@@ -152,6 +156,23 @@ def gen_run(rng, stop=None, **over):
              'Lmax': f2h(rng.choice([1e20] * 5 + [8.0, 64.0])),
              'minls': f2h(rng.choice([1. / 256, 1. / 256, 0.25])),
              'stopat': '0', 'stopcb': '0', 'oot': str(rng.choice([0] * 24 + [1]))})
+    if scen == 'noprogress':
+        # inputs so large that u + p == u although ‖p‖ > tol: B = 0, no input weights, constant input
+        # gradient cl_u, no bounds, u0 = ±2^80  → the iterate cannot change, `no_progress` counts up
+        nx, nu, N = p['nx'], p['nu'], p['N']
+        p2 = dict(p, B=[0.0] * (nx * nu), E=[0.0] * nx, Ulb=[-INF] * nu, Uub=[INF] * nu)
+        if p['hmode'] != 2:
+            W = list(p['W']); cl = list(p['cl'])
+            for i in range(nx, nx + nu):
+                W[i] = 0.0; cl[i] = rng.choice([0.25, -0.5, 1.0])
+            p2['W'] = W; p2['cl'] = cl
+        op.update(problem_kv(p2))
+        op['u0'] = kvvec([rng.choice([-1, 1]) * 2.0 ** 80 for _ in range(N * nu)])
+        op['maxnp'] = str(rng.choice([1, 2])); op['maxiter'] = str(rng.choice([5, 20]))
+        op['tol'] = f2h(1e-8)
+    elif scen == 'huge':
+        n = p['N'] * p['nu']
+        op['u0'] = kvvec([rng.choice([1e200, -1e200, 1e160, 1.0]) for _ in range(n)])
     if stop is None:
         r = rng.random()
         if r < 0.25:
